@@ -15,6 +15,10 @@ pub struct Case {
     /// extra top-level assignments (named references)
     #[serde(default)]
     pub others: Vec<(String, Ty)>,
+    /// "" | "imports:<names>" : A's components are of types imported from a second module (names comma separated)
+    /// | "values" : value assignments of list types next to the type (balance of the output)
+    #[serde(default)]
+    pub extra: String,
 }
 
 // ------------------------------------------------------------ a small structural TypeScript parser
@@ -400,26 +404,68 @@ impl Prop for C18 {
         "C18"
     }
     fn rule(&self) -> String {
-        "the constructed-type shapes of C02 (quick: n<=2 components over the 14-type alphabet × optionality × marker positions, long lists, container chains to depth 3, OF/primitive assignments, mutual recursion 2-cycles) and the extension layouts of C05 (r<=2, additions <=4 with groups), each with and without EXTENSIBILITY IMPLIED, compiled with the TypeScript backend; output parsed by a structural TypeScript parser (namespaces, imports, export type/enum/const, object / array / union / literal types, index signatures, delimiter and quote balance). Oracle (sem::ts): exactly one export per type assignment, named by hyphen→underscore, inside `export namespace <Module>`; object members in order with `?` exactly for OPTIONAL/DEFAULT; arrays for SEQUENCE OF / SET OF; anonymous ENUMERATED as string literals; CHOICE = union of single-key objects in order; index signature exactly for extensible SEQUENCE/SET; every referenced name declared; output balanced. Non-trivial: compiled, parsed and compared.".into()
+        "the constructed-type shapes of C02 (quick: n<=2 components over the 14-type alphabet × optionality × marker positions, long lists, container chains to depth 3, OF/primitive assignments, mutual recursion 2-cycles) and the extension layouts of C05 (r<=2, additions <=4 with groups), each with and without EXTENSIBILITY IMPLIED, compiled with the TypeScript backend; output parsed by a structural TypeScript parser (namespaces, imports, export type/enum/const, object / array / union / literal types, index signatures, delimiter and quote balance). Oracle (sem::ts): exactly one export per type assignment, named by hyphen→underscore, inside `export namespace <Module>`; object members in order with `?` exactly for OPTIONAL/DEFAULT; arrays for SEQUENCE OF / SET OF; anonymous ENUMERATED as string literals; CHOICE = union of single-key objects in order; index signature exactly for extensible SEQUENCE/SET; every referenced name declared or imported (imported types under mixed-case, all-upper-case, digit and hyphen names); output balanced, also with list values of length 0..2 next to the types. Non-trivial: compiled, parsed and compared.".into()
     }
     fn enumerate(&self, tier: Tier, seed: u64) -> Vec<Case> {
         let mut out = vec![];
         for c in c02::C02.enumerate(tier, seed) {
             if c.tagdef == "AUTOMATIC" {
-                out.push(Case { ty: c.ty.clone(), implied: c.implied, others: c.others.clone() });
+                out.push(Case { ty: c.ty.clone(), implied: c.implied, others: c.others.clone(), extra: String::new() });
                 if c.others.is_empty() && !c.implied && c.ty.depth() > 1 {
-                    out.push(Case { ty: c.ty, implied: true, others: vec![] });
+                    out.push(Case { ty: c.ty, implied: true, others: vec![], extra: String::new() });
                 }
             }
         }
         for c in c05::C05.enumerate(Tier::Quick, seed) {
             if c.kind != "ENUMERATED" && c.tagdef == "AUTOMATIC" && !c.versions {
-                out.push(Case { ty: c05::build(&c), implied: c.implied, others: vec![] });
+                out.push(Case { ty: c05::build(&c), implied: c.implied, others: vec![], extra: String::new() });
             }
         }
+        // types imported from a second module, under every kind of name (mixed case, all upper case, with digits, hyphenated)
+        let stub = Ty::Seq(Body::of(vec![Comp { name: "c0".into(), ty: Ty::Bool, opt: Opt::Req }]));
+        for names in ["Ty-L", "ID", "T1", "UUID", "Ty-L,ID,T1,UUID", "A-B-C,X9"] {
+            out.push(Case { ty: stub.clone(), implied: false, others: vec![], extra: format!("imports:{names}") });
+        }
+        // value assignments next to the types: the output stays balanced
+        out.push(Case { ty: stub.clone(), implied: false, others: vec![], extra: "values".into() });
         out
     }
     fn check(&self, c: &Case) -> CaseResult {
+        if let Some(names) = c.extra.strip_prefix("imports:") {
+            let names: Vec<&str> = names.split(',').collect();
+            let lib = format!("Lib DEFINITIONS AUTOMATIC TAGS ::= BEGIN\n{}\nEND\n", names.iter().map(|n| format!("{n} ::= INTEGER (0..7)")).collect::<Vec<_>>().join("\n"));
+            let m = format!("M DEFINITIONS AUTOMATIC TAGS ::= BEGIN\nIMPORTS {} FROM Lib;\nA ::= SEQUENCE {{ {} }}\nEND\n", names.join(", "), names.iter().enumerate().map(|(i, n)| format!("f{i} {n}")).collect::<Vec<_>>().join(", "));
+            let gen = match compile_ts(&[m.clone(), lib.clone()]) {
+                Outcome::Ok { generated, warnings } if warnings.is_empty() => generated,
+                other => return CaseResult { discs: vec![Disc::new(format!("ts|imports|rejected:{}", other.class()), format!("{}\n{m}\n{lib}", other.brief()))], nontrivial: false, outcome: other.class().into(), skipped: None },
+            };
+            let mut discs = vec![];
+            // namespace M: every imported type it mentions is imported under its mangled name
+            let start = gen.find("export namespace M").unwrap_or(0);
+            let ns_m = &gen[start..];
+            let ns_m = &ns_m[..ns_m[1..].find("export namespace ").map_or(ns_m.len(), |i| i + 1)];
+            for n in &names {
+                let id = n.replace('-', "_");
+                let imported = strip_ws_keep_strings(ns_m).contains(&format!("import{id}=Lib.{id};"));
+                if !imported {
+                    let class = if n.chars().all(|ch| ch.is_ascii_uppercase() || ch == '-') { "all-upper-case" } else if n.chars().any(|ch| ch.is_ascii_digit()) { "with-digit" } else { "mixed-case" };
+                    discs.push(Disc::new(format!("ts|imports|name={class}|kind=not-imported"), format!("namespace M mentions {id} without `import {id} = Lib.{id};`\n{m}\n{lib}\n--- generated ---\n{gen}")));
+                }
+            }
+            return CaseResult { discs, nontrivial: true, outcome: "imports".into(), skipped: None };
+        }
+        if c.extra == "values" {
+            let m = "M DEFINITIONS AUTOMATIC TAGS ::= BEGIN\nLst ::= SEQUENCE OF INTEGER\nnone Lst ::= { }\none Lst ::= { 1 }\ntwo Lst ::= { 1, 2 }\nSq ::= SEQUENCE { a INTEGER, l Lst }\nsq Sq ::= { a 1, l { } }\nCh ::= CHOICE { l Lst, n NULL }\nch Ch ::= l:{ }\nEND\n".to_string();
+            let gen = match compile_ts(&[m.clone()]) {
+                Outcome::Ok { generated, .. } => generated,
+                other => return CaseResult { discs: vec![Disc::new(format!("ts|values|rejected:{}", other.class()), format!("{}\n{m}", other.brief()))], nontrivial: false, outcome: other.class().into(), skipped: None },
+            };
+            let mut discs = vec![];
+            if !balanced(&gen) {
+                discs.push(Disc::new("ts|values|kind=unbalanced".to_string(), format!("delimiters are not balanced\n{m}\n--- generated ---\n{gen}")));
+            }
+            return CaseResult { discs, nontrivial: true, outcome: "values".into(), skipped: None };
+        }
         let src = if c.others.is_empty() {
             module_text(&c.ty, "AUTOMATIC", c.implied)
         } else {
